@@ -4,12 +4,12 @@
 //
 // Kani is run with debug assertions on, so `buggy::Bug::new` (bug!, .assume()) is a PANIC here.
 //
-//  * raw bytes -> SyncIncoming::decode for the integer-only poll kinds (decode step).
+//  * (the decode step of the request kinds from raw bytes is in sync_msg.rs)
 //  * structured: every SyncRequestMessage variant with symbolic fields through
 //    SyncResponder::dispatch (= receive) on every valid responder state against the exact
 //    specification (session id check, state transitions), followed by SyncResponder::poll with a
 //    storage provider that has no graph (everything that can be reached without a stored graph).
-use super::{super::SyncIncoming, *};
+use super::*;
 use crate::PolicyId;
 use crate::storage::{
     linear::{
@@ -239,76 +239,6 @@ fn variant_no(m: &SyncRequestMessage) -> u8 {
         SyncRequestMessage::EndSession { .. } => 3,
     }
 }
-
-// ---------------------------------------------------------------------------------------------
-// A. bytes -> decode   (see sync_msg.rs for how the bytes are made symbolic)
-// ---------------------------------------------------------------------------------------------
-
-const DECODE_ERR: u8 = 0;
-const NOT_A_POLL: u8 = 1;
-
-const POLL_SYNC_REQUEST: u8 = 2;
-const POLL_REQUEST_MISSING: u8 = 3;
-const POLL_SYNC_RESUME: u8 = 4;
-const POLL_END_SESSION: u8 = 5;
-
-/// The decoding step in front of `SyncResponder::receive`: SyncIncoming::decode on raw bytes.
-/// What `receive` does with the decoded request is decided for ALL request values by
-/// c18_responder_dispatch_structured (composing it here as well did not finish in 900 s).
-fn process_poll_bytes(data: &[u8]) -> (u8, u8) {
-    match SyncIncoming::decode(data) {
-        Ok(SyncIncoming::Poll(p)) => {
-            assert!(p.session_id() == p.message.session_id());
-            let v = variant_no(&p.message);
-            core::mem::forget(p);
-            (POLL_SYNC_REQUEST + v, 0)
-        }
-        Ok(_) => (NOT_A_POLL, 0),
-        Err(_) => (DECODE_ERR, 0),
-    }
-}
-
-/// A1: `$n` symbolic bytes behind the concrete tags `$prefix`, decoded at every length.
-macro_rules! raw_poll_harness {
-    ($name:ident, $n:expr, $prefix:expr, [$($code:ident),*], [$($pcode:ident),*], [$($len:literal)*]) => {
-        // unwind 3 + --unwindset for the varint loops: see sync_msg.rs
-        #[kani::proof]
-        #[kani::unwind(3)]
-        fn $name() {
-            let mut buf: [u8; $n] = kani::any();
-            let prefix: &[u8] = &$prefix;
-            let mut i = 0;
-            while i < prefix.len() {
-                buf[i] = prefix[i];
-                i += 1;
-            }
-            let mut seen = [false; 40];
-            $(
-                if $len >= prefix.len() && $len <= $n {
-                    let (d, q) = process_poll_bytes(&buf[..$len]);
-                    assert!(d != NOT_A_POLL);
-                    seen[d as usize] = true;
-                    seen[q as usize] = true;
-                }
-            )*
-            $( kani::cover!(seen[$code as usize]); )*
-            $( kani::cover!(seen[$pcode as usize]); )*
-        }
-    };
-}
-
-raw_poll_harness!(c18_responder_raw_end_session, 22, [0, 3],
-    [DECODE_ERR, POLL_END_SESSION],
-    [],
-    [2 3 21 22]);
-raw_poll_harness!(c18_responder_raw_sync_resume, 24, [0, 2],
-    [DECODE_ERR, POLL_SYNC_RESUME],
-    [],
-    [4 5 14 24]);
-raw_poll_harness!(c18_responder_raw_request_missing, 24, [0, 1],
-    [DECODE_ERR, POLL_REQUEST_MISSING],
-    [],
-    [3 4 5 24]);
 
 // ---------------------------------------------------------------------------------------------
 // B. structured requests
